@@ -88,6 +88,7 @@ var hostileDocs = [][]byte{
 	[]byte(`99999999999999999999999999999999999999`), []byte(`""`), []byte(`"x"`), []byte(`"\u0000"`), []byte("\"\xff\xfe\""), []byte(`[]`), []byte(`[null]`),
 	[]byte(`[1,2,3]`), []byte(`[[[[[[]]]]]]`), []byte(`{}`), []byte(`{"":null}`), []byte(`{"a":1,"a":2}`), []byte(`{"a":{"a":{"a":{"a":null}}}}`),
 	[]byte(`{`), []byte(`}`), []byte(`[`), []byte(`{"a"`), []byte(`{"a":`), []byte(`{"a":1,}`), []byte(`{"a":1}x`), []byte(`{"a":1}{"b":2}`), []byte(`nul`), []byte(`tru`),
+	[]byte(`{"a":1,"b":"two"}`), []byte(`{"a":"x","b":2}`), []byte(`{"cube":[[[1],[2]]]}`), []byte(`{"cube":[[[1],[2],[3]],[[4]]]}`), []byte(`[[[1],[2]]]`),
 	[]byte(`'single'`), []byte("\x00"), []byte("\xef\xbb\xbf{}"), []byte(`{"a":1e400}`), []byte(`{"a":"\ud800"}`), []byte(`[{"k":null}]`), []byte(`{"k":[]}`),
 	bytes.Repeat([]byte(`[`), 12000), append(bytes.Repeat([]byte(`{"a":`), 3000), append([]byte(`1`), bytes.Repeat([]byte(`}`), 3000)...)...),
 	[]byte(`"` + strings.Repeat("a", 70000) + `"`),
@@ -112,7 +113,7 @@ func c19Judge(j *core.Job, r *batch.Result) (string, string) {
 func TestC19(t *testing.T) {
 	c := core.New(t, "C19")
 	defer c.Finish()
-	c.Rule("every type with a generated UnmarshalJSON (and UnmarshalYAML, programs generated with --extra-imports half of the time) in full-mix programs x inputs: a fixed list of 43 hostile byte strings (truncations, trailing garbage, invalid UTF-8, 1e999, NUL, duplicate keys, 12000-deep nesting, scalars/arrays/null at the root, 70 kB string), valid documents, every single-fault mutant family (wrong types, missing required, bounds, lengths, patterns, array lengths, enums) and random truncations of valid documents x prior destination in {zero value, value decoded from a valid document}; ops: json.Unmarshal, direct UnmarshalJSON call, UnmarshalYAML on a parsed node; oracle: no panic, and when an error is returned the reflective dump of the destination equals the dump taken before the call; non-trivial = call that returned an error on a non-zero prior value, or input of another shape than the type's; distinct by sha256(schema,type,op,input,prior)")
+	c.Rule("every type with a generated UnmarshalJSON (and UnmarshalYAML, programs generated with --extra-imports half of the time) in full-mix programs x inputs: a fixed list of 48 hostile byte strings (truncations, trailing garbage, invalid UTF-8, 1e999, NUL, duplicate keys, 12000-deep nesting, scalars/arrays/null at the root, 70 kB string), valid documents, every single-fault mutant family (wrong types, missing required, bounds, lengths, patterns, array lengths, enums) and random truncations of valid documents x prior destination in {zero value, value decoded from a valid document}; ops: json.Unmarshal, direct UnmarshalJSON call, UnmarshalYAML on a parsed node; oracle: no panic, and when an error is returned the reflective dump of the destination equals the dump taken before the call; non-trivial = call that returned an error on a non-zero prior value, or input of another shape than the type's; distinct by sha256(schema,type,op,input,prior)")
 	c.Assume("a prior document that does not decode is not used", "YAML input that the YAML parser itself rejects never reaches the generated method")
 	eval := runReplayEval(c19Judge)
 	if c.RunReplay(eval) {
@@ -127,6 +128,21 @@ func TestC19(t *testing.T) {
 	runProperty(c, "run", c.N(120, 3000), 0, func(rt *rapid.T) *RunCase {
 		f := prof.File(rt, "prog.json")
 		docs.AddDefaults(rt, f.Root, prof.PDefault, o, func(n *model.Node) bool { return defaultAllowed(c, n) })
+		// shapes whose generated checks index into nested slices / decode into maps
+		if rapid.Bool().Draw(rt, "cube") {
+			lo, hi := 1, 3
+			cube := &model.Node{Kind: model.KArray, MinItems: &lo, MaxItems: &hi, Items: &model.Node{Kind: model.KArray, MinItems: &lo, MaxItems: &hi,
+				Items: &model.Node{Kind: model.KArray, MinItems: &lo, MaxItems: &hi, Items: &model.Node{Kind: model.KInteger}}}}
+			f.Root.Props = append(f.Root.Props, model.Prop{Name: "cube", Node: cube})
+			c.Count("shape.cube")
+		}
+		if rapid.Bool().Draw(rt, "anymap") {
+			mapOf := func(k model.Kind) *model.Node {
+				return &model.Node{Kind: model.KObject, Additional: &model.Additional{Schema: &model.Node{Kind: k}}}
+			}
+			f.Root.Props = append(f.Root.Props, model.Prop{Name: "anymap", Node: &model.Node{Kind: model.KAnyOf, Branches: []*model.Node{mapOf(model.KInteger), mapOf(model.KString)}}})
+			c.Count("shape.anyof_map_branches")
+		}
 		cfg := baseConfig()
 		cfg.ExtraImports = rapid.Bool().Draw(rt, "extra")
 		cs := caseOf(cfg, []string{f.RelPath}, f)
